@@ -407,16 +407,18 @@ class _StubOp:
         return {"name": "Stub"}
 
 
-def sc_composite(V, k=3):
+def sc_composite(V, k=3, rows=1):
+    """`rows`: displacement rows each part returns (1 = one vector for the whole group; N = one row per atom of
+    the moving group, as Rotation and TranslationRotation do)."""
     from quansino.operations.composite import CompositeOperation
 
-    parts = [V.array(f"part{i}_", (1, 3)) for i in range(k)]
+    parts = [V.array(f"part{i}_", (rows, 3)) for i in range(k)]
     ops = [_StubOp(p) for p in parts]
     comp = CompositeOperation(ops)
     r = _conv(V, comp.calculate(Ctx(None, None)))
     tot = sum(parts[1:], parts[0])
-    V.prove(V.eq(r, tot), "sum-of-parts", info="CompositeOperation")
-    V.prove(all(o.calls == 1 for o in ops), "each-part-once", info="CompositeOperation")
+    V.prove(np.shape(r) == (rows, 3) and V.eq(r, tot), "sum-of-parts", info=f"CompositeOperation:rows={rows}:shape={np.shape(r)}")
+    V.prove(all(o.calls == 1 for o in ops), "each-part-once", info=f"CompositeOperation:rows={rows}")
     V.reach("done")
 
 
@@ -520,6 +522,7 @@ def _plan(tier):
             plan.append(("rotation", dict(n=n, cell=c, with_translation=False), ("done",)))
         plan.append(("rotation", dict(n=2, cell=c, with_translation=True), ("done",)))
     plan.append(("composite", dict(k=3), ("done",)))
+    plan.append(("composite", dict(k=2, rows=3), ("done",)))
     for op in ("Isotropic", "Anisotropic", "Shape"):
         for masked in (False, True):
             plan.append(("deformation", dict(op=op, masked=masked), ("done",)))
